@@ -19,6 +19,21 @@ class Ret:
     return '<Ret %s %d>' % (self.sel, self.n)
 
 
+class OnceIter:
+  """an iterable that may be walked only by its consumer: iterating it a second time (or before the consumer does) raises,
+  like a generator that has been exhausted or a 0-d array.  Binding it must not look inside."""
+
+  def __init__(self):
+    self.walked = 0
+
+  def __iter__(self):
+    self.walked += 1
+    raise TypeError('iteration over a value gin had no business iterating')
+
+  def __deepcopy__(self, memo):
+    return self
+
+
 class AnyEq:
   """compares equal to everything (like unittest.mock.ANY)"""
 
@@ -249,6 +264,7 @@ class Machine:
     self.wrappers = {}
     self.instances = {}
     self.constants_defined = {}
+    self.walk_fails = []
     self.mutate = mutate
     self.trace = []
     self.calls = []      # per top-level/inner 'call' op: context for the P_impl predicates
@@ -276,6 +292,8 @@ class Machine:
       return T('Ret', x.sel, x.n)
     if isinstance(x, AnyEq):
       return T('Obj', 'ANY')
+    if isinstance(x, OnceIter):
+      return T('Obj', 'ITER')
     if isinstance(x, Opaque):
       return T('Obj', x.id)
     if hasattr(x, '_gin_ret'):
@@ -309,7 +327,7 @@ class Machine:
     if t == 'obj':
       if v[1] in ('inf', '-inf', 'nan'):
         return float(v[1])          # non-finite floats have no literal form: opaque to the model
-      return AnyEq() if v[1] == 'ANY' else Opaque(v[1])
+      return AnyEq() if v[1] == 'ANY' else OnceIter() if v[1] == 'ITER' else Opaque(v[1])
     raise ValueError(v)
 
   # -- probes
@@ -490,7 +508,13 @@ class Machine:
     gin, cfg = self.gin, self.cfg
     k = op[0]
     if k == 'bind':
-      gin.bind_parameter(op[1], self.val(op[2]))
+      v = self.val(op[2])
+      try:
+        gin.bind_parameter(op[1], v)
+      finally:
+        if isinstance(v, OnceIter) and v.walked:
+          self.walk_fails.append(('bind-walked-the-value', 'bind_parameter(%r, <an iterable only its consumer may walk>) iterated the '
+                                  'value (a generator would now be exhausted; a 0-d array raises)' % (op[1],)))
       self.emit(None)
     elif k == 'pbind':
       gin.parse_config('%s = %s' % (op[1], val_text(op[2])))
@@ -628,7 +652,7 @@ class Machine:
       elif not any(C.strict_eq(g, want) for g in got):
         fails.append(('bound-value-not-stored', 'after %r the store holds %r for parameter %r of %r under scope %r, not the '
                       'bound value %r' % (op, got, param, sel, scope, want)))
-    return fails[:2]
+    return self.walk_fails[:1] + fails[:2]
 
   def run(self, case):
     self.case_regs = case['regs']
